@@ -34,25 +34,35 @@ pub struct ChannelClosed;
 impl<T> Sender<T> {
     pub fn send(&mut self, value: T) -> Result<(), ChannelFull> {
         while let Some(value) = self.pending_messages.pop() {
+            #[cfg(fastrace_verif)]
+            self.verif_before_push(0);
             if let Err(PushError::Full(value)) = self.tx.push(value) {
                 self.pending_messages.push(value);
                 return Err(ChannelFull);
             }
         }
 
+        #[cfg(fastrace_verif)]
+        self.verif_before_push(1);
         self.tx.push(value).map_err(|_| ChannelFull)
     }
 
     pub fn force_send(&mut self, value: T) {
         while let Some(value) = self.pending_messages.pop() {
+            #[cfg(fastrace_verif)]
+            self.verif_before_push(0);
             if let Err(PushError::Full(value)) = self.tx.push(value) {
                 self.pending_messages.push(value);
                 break;
             }
         }
 
+        #[cfg(fastrace_verif)]
+        self.verif_before_push(1);
         if let Err(PushError::Full(value)) = self.tx.push(value) {
             self.pending_messages.push(value);
+            #[cfg(fastrace_verif)]
+            crate::verif::point(crate::verif::P_PARKED, self.pending_messages.len() as u64, 0);
         }
     }
 }
@@ -60,6 +70,11 @@ impl<T> Sender<T> {
 impl<T> Drop for Sender<T> {
     fn drop(&mut self) {
         for command in self.pending_messages.drain(..) {
+            #[cfg(fastrace_verif)]
+            {
+                crate::verif::point(crate::verif::P_PUSH, 2, 0);
+                crate::verif::point(crate::verif::P_PUSH_OUTCOME, 2, self.tx.is_full() as u64);
+            }
             drop(self.tx.push(command));
         }
     }
@@ -69,8 +84,24 @@ impl<T> Receiver<T> {
     pub fn try_recv(&mut self) -> Result<Option<T>, ChannelClosed> {
         match self.rx.pop() {
             Ok(val) => Ok(Some(val)),
+            #[cfg(fastrace_verif)]
+            Err(_) if {
+                crate::verif::point(crate::verif::P_RECV_EMPTY, 0, 0);
+                false
+            } =>
+            {
+                unreachable!()
+            }
             Err(_) if self.rx.is_abandoned() => Err(ChannelClosed),
             Err(_) => Ok(None),
         }
+    }
+}
+
+#[cfg(fastrace_verif)]
+impl<T> Sender<T> {
+    fn verif_before_push(&self, which: u64) {
+        crate::verif::point(crate::verif::P_PUSH, which, 0);
+        crate::verif::point(crate::verif::P_PUSH_OUTCOME, which, self.tx.is_full() as u64);
     }
 }
